@@ -48,11 +48,11 @@ Qed.
 (* ---- witnesses ---------------------------------------------------------------------------- *)
 Definition opts_s2 : eopts :=
   {| o_sig := Logs; o_queue := true; o_storage := true; o_items_sizer := false; o_cap := 10; o_wfr := false;
-     o_qbatch := None; o_batcher := None; o_retry := true |}.
+     o_qbatch := None; o_batcher := None; o_retry := true; o_tracing := true |}.
 
 Definition opts_wfr : eopts :=
   {| o_sig := Logs; o_queue := false; o_storage := false; o_items_sizer := false; o_cap := 0; o_wfr := false;
-     o_qbatch := None; o_batcher := Some (100, 0); o_retry := false |}.
+     o_qbatch := None; o_batcher := Some (100, 0); o_retry := false; o_tracing := false |}.
 
 Definition balance (o : eopts) (st : est) : Prop :=
   lget (ExpSent (o_sig o)) (s_led st) + lget (ExpFailed (o_sig o)) (s_led st) + lget (ExpEnqFailed (o_sig o)) (s_led st)
@@ -121,3 +121,38 @@ Proof.
   - rewrite proc_run_out, signal_eqb_neq; auto.
   - intros c Hc. now apply proc_run_foreign.
 Qed.
+
+(* ---- tracing -------------------------------------------------------------------------------- *)
+Lemma recv_end_op_full_facts rc s n err :
+  s <> Profiles ->
+  lget (RecvAccepted s) (recv_end_op_full rc s n err) + lget (RecvRefused s) (recv_end_op_full rc s n err) = n /\
+  (err = false -> lget (RecvAccepted s) (recv_end_op_full rc s n err) = n /\ lget (RecvRefused s) (recv_end_op_full rc s n err) = 0) /\
+  (err = true -> lget (RecvAccepted s) (recv_end_op_full rc s n err) = 0 /\ lget (RecvRefused s) (recv_end_op_full rc s n err) = n) /\
+  (forall c, c <> RecvAccepted s -> c <> RecvRefused s -> is_span_counter c = false -> lget c (recv_end_op_full rc s n err) = 0).
+Proof.
+  intros Hs. rewrite !recv_full_real by reflexivity.
+  destruct (recv_end_op_facts s n err Hs) as (A & B & C & D). repeat split; auto.
+  - apply B; auto.
+  - apply B; auto.
+  - apply C; auto.
+  - apply C; auto.
+  - intros c H1 H2 H3. rewrite recv_full_real by exact H3. auto.
+Qed.
+
+Lemma obs_end_op_tracing s n r c :
+  is_span_counter c = false -> lget c (obs_end_op true s n r) = lget c (obs_end_op false s n r).
+Proof. intros H. destruct s, r, c; simpl in *; try discriminate; lia. Qed.
+
+Lemma obs_end_op_span s n r :
+  s <> Profiles ->
+  lget (SpanSent s) (obs_end_op true s n r) = lget (ExpSent s) (obs_end_op true s n r) /\
+  lget (SpanFailed s) (obs_end_op true s n r) = lget (ExpFailed s) (obs_end_op true s n r) /\
+  lget (SpanSent s) (obs_end_op false s n r) = 0 /\ lget (SpanFailed s) (obs_end_op false s n r) = 0.
+Proof. intros H. destruct s, r; try congruence; simpl; lia. Qed.
+
+Lemma tracing_irrelevant_l :
+  (forall ops ops' c, is_span_counter c = false -> map ro_core ops = map ro_core ops' ->
+     lget c (recv_run ops) = lget c (recv_run ops')) /\
+  (forall rc rc' k ops c, is_span_counter c = false -> lget c (scr_run rc k ops) = lget c (scr_run rc' k ops)) /\
+  (forall s n r c, is_span_counter c = false -> lget c (obs_end_op true s n r) = lget c (obs_end_op false s n r)).
+Proof. exact (conj recv_run_tracing_irrelevant (conj scr_run_tracing_irrelevant obs_end_op_tracing)). Qed.
